@@ -15,7 +15,7 @@ import time
 wt, mutdir, dest, pkg = sys.argv[1:5]
 demos = [p for p in glob.glob(os.path.join(mutdir, "demo", "*")) if not p.endswith(".md")]
 names = [os.path.splitext(os.path.basename(p))[0] for p in demos if p.endswith(".rs")]
-env = dict(os.environ, CARGO_NET_OFFLINE="true", MIMIUM_BACKEND="")
+env = dict(os.environ, CARGO_NET_OFFLINE="true", MIMIUM_BACKEND="", CARGO_INCREMENTAL="0")
 env.pop("MIMIUM_BACKEND")
 
 
